@@ -145,7 +145,7 @@ pub fn def() -> PropDef {
             name: "classify",
             rule: "see property rule",
             strategy,
-            cases: (40_000, 3_000_000),
+            cases: (400_000, 5_000_000),
             exhaustive: Some(enumerate),
             exhaustive_note: "all functions and all variables, n<=3 (quick) / n<=4 (thorough), both families",
             run,
